@@ -96,6 +96,28 @@ fn function_level(seed: u64, n: u64) -> Acc {
     })
 }
 
+/// The program's own (Anchor) fee conversions for a mint whose current transfer fee is `fee` = (basis points,
+/// maximum fee): for every amount (excluded(amount), included(amount)) as (amount, fee) or the error number.
+/// Used by the SDK differential (C20).
+pub fn anchor_fee_amounts(r: &mut R, fee: (u16, u64), xs: &[u64]) -> Vec<(Result<(u64, u64), u64>, Result<(u64, u64), u64>)> {
+    let data = build_mint(r, (fee.0, fee.1, 0), (fee.0, fee.1, 0));
+    let key = Pubkey::new_from_array(r.gen());
+    svm::set_ambient_clock(Clock { epoch: 3, unix_timestamp: 1_700_000_000, ..Default::default() });
+    let mut lamports = 1_000_000u64;
+    let mut adata = data.clone();
+    let owner = TOKEN22;
+    let ai = AccountInfo::new(&key, false, false, &mut lamports, &mut adata, &owner, false, 0);
+    let amint: anchor_lang::prelude::InterfaceAccount<anchor_spl::token_interface::Mint> = anchor_lang::prelude::InterfaceAccount::try_from(&ai).expect("mint");
+    xs.iter()
+        .map(|x| {
+            (
+                calculate_transfer_fee_excluded_amount(&amint, *x).map(|v| (v.amount, v.transfer_fee)).map_err(aerr),
+                calculate_transfer_fee_included_amount(&amint, *x).map(|v| (v.amount, v.transfer_fee)).map_err(aerr),
+            )
+        })
+        .collect()
+}
+
 /// Fee algebra slice (single-threaded; also run under Miri by the `c16` sanitizer lane): `n` amount cases,
 /// `per_mint` of them per generated mint.
 pub fn fee_slice(r0: &mut R, n: u64, per_mint: u32, acc: &mut Acc) {
